@@ -89,6 +89,7 @@ def emit_fn(item, ledger, global_rewrites, probe=False):
         ins.append((lp["body"][0], _mk("L%d" % n)))
         ins.append((lp["body"][0] + 1, _mk("LB%d" % n)))
         ins.append((lp["span"][1], _mk("LA%d" % n)))
+        ins.append((lp["body"][1] - 1, _mk("LE%d" % n)))
     ins.sort(key=lambda x: -x[0])
     txt = src[s0:e0]
     for off, m in ins:
@@ -131,6 +132,7 @@ def emit_fn(item, ledger, global_rewrites, probe=False):
         txt = txt.replace(_mk("LB%d" % n), spec.get("body_prologue", ""))
         after = spec.get("after", "")
         txt = txt.replace(_mk("LA%d" % n), (";" + after) if after else "")
+        txt = txt.replace(_mk("LE%d" % n), spec.get("body_epilogue", ""))
     for n in loops:
         if n >= len(it["loops"]):
             raise Undecided("lost anchor: loop #%d of %s not found" % (n, where))
@@ -416,11 +418,18 @@ class VerusResult:
 
     def trusted_scan(self):
         found = []
-        for i, ln in enumerate(self.text.splitlines(), 1):
+        lines = self.text.splitlines()
+        for i, ln in enumerate(lines, 1):
             s = ln.strip()
             if s.startswith("//"):
                 continue
             for m in TRUST_MARKERS:
                 if m in ln:
-                    found.append((i, m, s[:160]))
+                    ctx = s
+                    if "fn " not in s:
+                        for nx in lines[i:i + 3]:
+                            if "fn " in nx:
+                                ctx = s + " " + nx.strip()
+                                break
+                    found.append((i, m, ctx[:200]))
         return found
